@@ -63,8 +63,14 @@ def r04_2(ctx):
                     'a put that finds the entry present does not consume its source'))
     r = q.reach_fwd([q.E[x][1] for x in N]) if N else set()
     bad = [t for t in oks if t in r]
-    out.append(inst('R04.2', 'other kinds propagate', bool(N) and not bad, 'any other link error reaches only Err exits' if N and not bad else
-                    'a link failure other than AlreadyExists can end in success'))
+    # ... and the AlreadyExists test is the *only* way from a failed link to a successful return
+    LE = outcomes(q, links, 'Err')
+    leak = q.must_follow(LE, A, oks) if LE else []
+    ok2 = bool(N) and not bad and bool(LE) and not leak
+    out.append(inst('R04.2', 'other kinds propagate', ok2, 'a failed link reaches an Ok exit only through the AlreadyExists test; any other error reaches only Err exits' if ok2 else
+                    ('a link failure other than AlreadyExists can end in success' if bad or not N else
+                     'a failed link can be reported as success without the destination having been found to exist (put may return Ok without taking effect)'),
+                    path=witness_path(q, leak[0]) if leak else []))
     # no publish_replace reachable after the link (put never overwrites)
     return out
 
